@@ -9,7 +9,7 @@ if ! git apply "$P" 2>/dev/null; then
 fi
 rc_demo=-
 if [ -n "$DEMO" ]; then (cd /tmp && PYTHONPATH=/repo/src timeout 300 /venv/bin/python "$DEMO" >/dev/null 2>&1); rc_demo=$?; fi
-cd /verif && VERIF_SEED=${VERIF_SEED:-1} bin/check "$ID" --tier ${TIER:-quick} > /tmp/seedtest.$$.log 2>&1; rc=$?
+cd /verif && VERIF_SEED=${VERIF_SEED:-1} timeout -k 5 ${CHECK_TIMEOUT:-600} bin/check "$ID" --tier ${TIER:-quick} > /tmp/seedtest.$$.log 2>&1; rc=$?
 grep -E "VIOLATION|HARNESS|new signature" /tmp/seedtest.$$.log | head -${LINES_MAX:-4}
 tail -1 /tmp/seedtest.$$.log | grep -v VIOLATION
 rm -f /tmp/seedtest.$$.log
